@@ -158,6 +158,11 @@ class Ctx:
     def vsched_obj(self):
         return self.build_obj("vsched", "engine/vsched/vsched.cpp")
 
+    def build_tsan_free(self, name, sources, flags=()):
+        """The same harness bodies, free-running on real threads under ThreadSanitizer (no scheduler)."""
+        return self.build(name, list(sources) + [os.path.join(VERIF, "engine", "vsched", "vsched_free.cpp")],
+                          flags=list(flags) + ["-DVERIF_NO_DEFAULT_HOOK", "-DVSCHED_FREE"], opt="-O1", compiler="clang++", tsan=True)
+
     def build_many(self, specs):
         """specs: list of dict(kwargs for build). Builds in parallel; returns list of exes."""
         from concurrent.futures import ThreadPoolExecutor
@@ -255,7 +260,22 @@ class Ctx:
             for line in out.splitlines():
                 if line:
                     self.feed_line(line, harness=exe)
-            if p.returncode != 0 and not allow_fail and (p.returncode < 0 or "AddressSanitizer" in err
+            if p.returncode != 0 and not allow_fail and "WARNING: ThreadSanitizer:" in err:
+                # free-running TSan companion: every distinct SUMMARY line is a finding class
+                import re
+                seen = set()
+                for mm in re.finditer(r"SUMMARY: ThreadSanitizer: ([^\n]*)", err):
+                    line = mm.group(1)
+                    kind = line.split(" /")[0].split(" (")[0].strip()
+                    fn = line.split(" in ", 1)[1].strip() if " in " in line else "?"
+                    fn = re.sub(r"\(.*", "", fn)
+                    key = "tsan/%s@%s" % (kind.replace(" ", "-"), fn)
+                    if key not in seen:
+                        seen.add(key)
+                        q = err.find(line)
+                        start = err.rfind("WARNING: ThreadSanitizer", 0, q)
+                        self.violation(key, "free-running ThreadSanitizer pass: " + err[start:start + 1500].replace("\n", " | "), harness=None, spec="")
+            elif p.returncode != 0 and not allow_fail and (p.returncode < 0 or "AddressSanitizer" in err
                                                          or "Assertion `" in err or "terminate called" in err):
                 # the harness process itself died on the code under test: that is a finding about the
                 # tree (the harness is known not to crash on the unchanged tree), not a machinery error
